@@ -170,6 +170,21 @@ impl<T> Channel<T> {
     }
 }
 
+#[cfg(sighook_verif)]
+impl<T> Channel<T> {
+    /// Addresses of the shared words and cells (verification harness only).
+    pub fn verif_layout(&self) -> Vec<(String, usize)> {
+        let mut v = vec![
+            ("empty".to_string(), &self.empty as *const _ as usize),
+            ("full".to_string(), &self.full as *const _ as usize),
+        ];
+        for (i, c) in self.storage.iter().enumerate() {
+            v.push((format!("cell{}", i + 1), c as *const _ as usize));
+        }
+        v
+    }
+}
+
 impl<T> Default for Channel<T> {
     fn default() -> Self {
         Self::new()
